@@ -62,6 +62,16 @@ theorem rsReset_facts (c : Cfg) (s : S) :
     simp only [h]
     exact h2
 
+/-- `reset()` gives back exactly what the retry state holds -/
+theorem rsReset_retries (c : Cfg) (s : S) : (rsReset c s).retries = s.retries - heldRetry c s := by
+  have h := rsReset_facts c s
+  have h0 : heldRetry c (rsReset c s) = 0 := by simp [heldRetry, h.2.1]
+  have := h.2.2
+  omega
+
+theorem rsReset_retries_of_not_held (c : Cfg) (s : S) (h : rsHeld s = false) : (rsReset c s).retries = s.retries := by
+  rw [rsReset_retries]; simp [heldRetry, h]
+
 theorem cleanUp_facts (c : Cfg) (s : S) :
     (cleanUp c s).rs.isSome = s.rs.isSome ∧ rsHeld (cleanUp c s) = false ∧
     (cleanUp c s).retries - heldRetry c (cleanUp c s) = s.retries - heldRetry c s ∧
